@@ -62,13 +62,28 @@ pub fn decode_sentinel(vec: &[f32]) -> u64 {
 
 pub enum VOp {
     Add(u32, Vec<f32>),
+    Append(u32, Vec<f32>),
     Del(u32),
+}
+
+/// Every third version is a "staging" version: items are appended (ids above everything stored) and the
+/// transaction is committed WITHOUT a build; the next version builds. What is pending must survive a crash.
+pub fn is_staging(v: u64) -> bool {
+    v > 0 && v % 3 == 2
 }
 
 /// The item operations of version `v` (v = 0 is the initial population). Pure function of the seed.
 pub fn version_ops(seed: u64, v: u64, dims: usize) -> Vec<VOp> {
     let mut rng = StdRng::seed_from_u64(mix(seed ^ mix(v + 1)));
     let mut ops = Vec::new();
+    if is_staging(v) {
+        // the sentinel first (it is the largest id so far), then appends above it
+        ops.push(VOp::Add(SENTINEL, sentinel_vec(dims, v)));
+        for k in 0..rng.gen_range(3..30u32) {
+            ops.push(VOp::Append(SENTINEL + 1000 * v as u32 + k, (0..dims).map(|_| rng.gen_range(-1.0f32..1.0)).collect()));
+        }
+        return ops;
+    }
     let n_add = if v == 0 { 60 } else { rng.gen_range(3..40) };
     let n_del = if v == 0 { 0 } else { rng.gen_range(0..12) };
     for _ in 0..n_del {
@@ -87,7 +102,7 @@ pub fn model_at(seed: u64, v: u64, dims: usize) -> BTreeMap<u32, Vec<f32>> {
     for k in 0..=v {
         for op in version_ops(seed, k, dims) {
             match op {
-                VOp::Add(id, vec) => {
+                VOp::Add(id, vec) | VOp::Append(id, vec) => {
                     m.insert(id, vec);
                 }
                 VOp::Del(id) => {
@@ -140,6 +155,7 @@ fn child_run<D: Distance>(args: &Args, st: &Setup) {
             }
             match op {
                 VOp::Add(id, vec) => writer.add_item(&mut wtxn, id, &vec).unwrap(),
+                VOp::Append(id, vec) => writer.append_item(&mut wtxn, id, &vec).expect("append above every stored id"),
                 VOp::Del(id) => {
                     writer.del_item(&mut wtxn, id).unwrap();
                 }
@@ -149,6 +165,16 @@ fn child_run<D: Distance>(args: &Args, st: &Setup) {
         let steps = AtomicU64::new(0);
         let mut rng = StdRng::seed_from_u64(seed ^ v);
         let n_ops = version_ops(seed, v, st.dims).len();
+        if is_staging(v) {
+            say(&format!("COUNT {v} polls=0 steps=0 ops={n_ops}"));
+            say(&format!("COMMITTING {v}"));
+            wtxn.commit().expect("commit");
+            say(&format!("ACK {v}"));
+            if armed && kmode == "after" {
+                die();
+            }
+            continue;
+        }
         pool.install(|| {
             let mut b = writer.builder(&mut rng);
             b.n_trees(st.n_trees).split_after(st.split_after);
@@ -206,8 +232,9 @@ fn verify_run<D: Distance>(args: &Args, st: &Setup) -> Result<String, String> {
         }
     }
     let db = db.ok_or("the unnamed database is missing after the crash")?;
-    let reader = Reader::<D>::open(&rtxn, st.index, adb::<D>(db)).map_err(|e| format!("Reader::open after the crash: {e:?} (acked={acked}, in flight={inflight:?})"))?;
-    let sv = reader.item_vector(&rtxn, SENTINEL).map_err(|e| format!("{e:?}"))?.ok_or("the version sentinel is missing")?;
+    // the sentinel is read through the writer-side API: a staging version must not open a reader
+    let wprobe = Writer::<D>::new(adb::<D>(db), st.index, st.dims);
+    let sv = wprobe.item_vector(&rtxn, SENTINEL).map_err(|e| format!("{e:?}"))?.ok_or("the version sentinel is missing")?;
     let v = decode_sentinel(&sv);
     if v != acked && Some(v) != inflight {
         return Err(format!("after the crash the database shows version {v}; last acknowledged commit {acked}, commit in flight {inflight:?}"));
@@ -216,9 +243,18 @@ fn verify_run<D: Distance>(args: &Args, st: &Setup) -> Result<String, String> {
     let mut m = IndexModel::new(st.index, st.metric, st.dims);
     m.items = items;
     m.has_metadata = true;
+    m.dirty = is_staging(v);
     let mut c = crate::util::Counters::default();
     let probe: Vec<u32> = m.items.keys().copied().collect();
     engine::check_store::<D>(&rtxn, db, &m, &probe, true, &mut c).map_err(|e| format!("version {v} after the crash: {e}"))?;
+    if is_staging(v) {
+        // committed but not built: the index must demand a build, in this fresh process too
+        let mut srng = StdRng::seed_from_u64(1);
+        engine::check_staleness(&rtxn, db, &m, &mut srng, &mut c).map_err(|e| format!("staging version {v} after the crash: {e}"))?;
+        drop(rtxn);
+        return finish_after_crash::<D>(&env, db, st, args, seed, v, acked, m, c);
+    }
+    let reader = Reader::<D>::open(&rtxn, st.index, adb::<D>(db)).map_err(|e| format!("Reader::open after the crash: {e:?} (acked={acked}, in flight={inflight:?})"))?;
     let d = rawdb::dump(&rtxn, db)?;
     let decl = |i: u16| if i == st.index { Some((st.metric, st.dims)) } else { None };
     let dec = rawdb::decode(&d, &decl).map_err(|e| format!("version {v} after the crash does not decode: {e}"))?.remove(&st.index).unwrap_or_default();
@@ -227,7 +263,23 @@ fn verify_run<D: Distance>(args: &Args, st: &Setup) -> Result<String, String> {
     engine::check_exact::<D>(&rtxn, db, &m, &mut qrng, 3, true, &mut c).map_err(|e| format!("version {v} after the crash: {e}"))?;
     drop(reader);
     drop(rtxn);
-    // life goes on: one more update + build + commit
+    finish_after_crash::<D>(&env, db, st, args, seed, v, acked, m, c)
+}
+
+/// life goes on: one more update + build + commit, then a second, different one
+#[allow(clippy::too_many_arguments)]
+fn finish_after_crash<D: Distance>(
+    env: &heed::Env<heed::WithTls>,
+    db: RawDb,
+    st: &Setup,
+    args: &Args,
+    seed: u64,
+    v: u64,
+    acked: u64,
+    mut m: IndexModel,
+    mut c: crate::util::Counters,
+) -> Result<String, String> {
+    let decl = |i: u16| if i == st.index { Some((st.metric, st.dims)) } else { None };
     let mut wtxn = env.write_txn().map_err(|e| format!("write txn after the crash: {e:?}"))?;
     let mut writer = Writer::<D>::new(adb::<D>(db), st.index, st.dims);
     if let Some(t) = args.get("tmpdir") {
